@@ -473,7 +473,7 @@ static void gen_roles(Src& s, Roles& r) {
     memcpy(r.sta, MACS[1 + s.pick(3)], 6);
     if (s.chance(15)) gen_mac(s, r.sta);
     if (memcmp(r.sta, r.bssid, 6) == 0) r.sta[5] ^= 1;
-    switch (s.weighted({3, 3, 1, 1})) {
+    switch (s.weighted({3, 4, 1, 1})) {
         default:
         case 0: memcpy(r.third, r.bssid, 6); break;
         case 1: memcpy(r.third, MACS[1 + s.pick(3)], 6); break;
@@ -513,12 +513,19 @@ static const char* const MODE_NAME[] = {"positive", "flip-data", "flip-mic-icv",
                                         "no-key", "other-station-key", "truncate-extend", "michael-only-bad", "cipher-mismatch"};
 
 static void case_direct(Src& s, Ctx& ctx) {
+    // the structural choices come first so that even short choice sequences vary them
     int cipher = (int)s.weighted({2, 2, 4, 5});
-    unsigned ds = (unsigned)s.pick(4);
-    bool qos = s.boolean();
-    Roles roles;
-    gen_roles(s, roles);
-    MacHdr h = hdr_for(s, ctx, ds, qos, roles);
+    unsigned b0 = s.u8();
+    unsigned ds = b0 & 3;
+    bool qos = (b0 & 4) != 0;
+    unsigned keyid = (b0 >> 3) & 3;
+    bool distractor = (b0 & 0x60) != 0x60 ? (b0 & 0x80) != 0 : true;   // ~ 5 in 8
+    unsigned mode = (unsigned)s.weighted({6, 2, 2, 2, 4, 2, 1, 2, 3, 1, 1});
+    if (mode == 9 && cipher != TKIP) mode = 0;
+    if (mode == 10 && cipher <= WEP104) mode = 5;
+    if (mode == 4 && cipher <= WEP104) mode = 1;   // WEP protects no header field
+    Plain plain = gen_plain(s, 2292);
+    uint64_t pn = gen_pn(s, cipher);
     KeySet k;
     k.ptk.assign(80, 0);
     if (cipher <= WEP104) k.wep = gen_key(s, cipher == WEP40 ? 5 : 13);
@@ -527,14 +534,9 @@ static void case_direct(Src& s, Ctx& ctx) {
         std::copy(tk.begin(), tk.end(), k.ptk.begin() + 32);
         if (cipher == TKIP) { Bytes mk = gen_key(s, 16); std::copy(mk.begin(), mk.end(), k.ptk.begin() + 48); }
     }
-    uint64_t pn = gen_pn(s, cipher);
-    unsigned keyid = (unsigned)s.pick(4);
-    Plain plain = gen_plain(s, 2292);
-    unsigned mode = (unsigned)s.weighted({8, 2, 2, 2, 3, 2, 1, 2, 3, 1, 1});
-    if (mode == 9 && cipher != TKIP) mode = 0;
-    if (mode == 10 && cipher <= WEP104) mode = 5;
-    if (mode == 4 && cipher <= WEP104) mode = 1;   // WEP protects no header field
-    bool distractor = s.chance(35);
+    Roles roles;
+    gen_roles(s, roles);
+    MacHdr h = hdr_for(s, ctx, ds, qos, roles);
     unsigned container = (unsigned)s.weighted({7, 2, 1});
 
     Bytes body = encap(cipher, k, h, pn, keyid, plain.bytes, mode == 9);
@@ -1295,7 +1297,7 @@ static void case_history(Src& s0, Ctx& ctx) {
     H.container = (unsigned)s.weighted({7, 2, 1});
     H.lossy = s.chance(25);
     memcpy(H.bssid, MACS[s.boolean() ? 4 : 0], 6);
-    unsigned nsta = 1 + (unsigned)s.weighted({4, 4, 1});
+    unsigned nsta = 1 + (unsigned)s.weighted({3, 5, 1});
     unsigned rot = (unsigned)s.pick(3);
     H.st.resize(nsta);
     for (unsigned i = 0; i < nsta; ++i) memcpy(H.st[i].mac, MACS[1 + (rot + i) % 3], 6);
@@ -1341,21 +1343,21 @@ static void case_history(Src& s0, Ctx& ctx) {
     Bytes ck;
     while (nsteps < maxsteps && s0.remaining() > 0) {
         ++nsteps;
-        unsigned act = s0.u8() % 21;
-        size_t need = (act >= 13 && act <= 16) ? 24 : ((act >= 8 && act <= 10) || act >= 19 ? 12 : 6);
+        unsigned act = s0.u8() % 22;
+        size_t need = (act >= 14 && act <= 17) ? 24 : ((act >= 7 && act <= 9) || act >= 20 ? 12 : 6);
         ck = s0.bytes(need);
         cur = Src(ck.data(), ck.size());
         Sta& x = H.st[s.pick(H.st.size())];
-        if (act <= 7) {
+        if (act <= 6) {
             if (!H.send_pending(x, false)) {
                 if (x.attempt == 0 || x.ap_phase == 0 || x.ap_phase == 3) H.start(x, false);
                 else H.timeout(x);
             }
-        } else if (act <= 10) H.start(x, false);
-        else if (act <= 12) { if (!H.timeout(x)) H.fast_forward(x); }
-        else if (act <= 16) H.data(x, false, -1);
-        else if (act == 17) H.do_beacon();
-        else if (act == 18) H.noise(x);
+        } else if (act <= 9) H.start(x, false);
+        else if (act <= 13) { if (!H.timeout(x)) H.fast_forward(x); }
+        else if (act <= 17) H.data(x, false, -1);
+        else if (act == 18) H.do_beacon();
+        else if (act == 19) H.noise(x);
         else H.fast_forward(x);
     }
     // final probes: one frame per direction under each station's installed key
